@@ -1,5 +1,6 @@
 import CstModel.Props.C20
 import CstModel.Props.GenBuilder2
+import CstModel.Props.GenIntern
 open Cst.C20
 #print axioms fail_no_change
 #print axioms static_never_interns
@@ -8,3 +9,6 @@ open Cst.C20
 #print axioms finished_tree_equiv
 #print axioms Cst.Gen.b_token_raw
 #print axioms Cst.Gen.b_static_token_raw
+#print axioms Cst.Gen.i_get_or_intern
+#print axioms Cst.Gen.i_get_or_intern_arg
+#print axioms Cst.Gen.i_fwd
